@@ -95,13 +95,15 @@ Definition newRing : ring := mkR 0 0 (repeat 0 16) true [] [] [].
 
 (* integer-list interface:
    [0;tid;item] start Add -> []    [1;tid] one atomic step -> event
-   [2;tid] Free (start) -> []      [3] dump -> head tail token slots... *)
+   [2;tid] Free (start) -> []      [3] dump -> head tail token slots...
+   [4;tid] one atomic step, event not exposed (store-level replay) -> [] *)
 Definition rg_step (r : ring) (op : list Z) : ring * list Z :=
   match op with
   | [0; tid; item] => (rstart r tid item, [])
   | [1; tid] => rstep r tid
   | [2; tid] => (rfree r tid, [])
   | [3] => (r, rhead r :: rtail r :: b2z (rtoken r) :: rslots r)
+  | [4; tid] => (fst (rstep r tid), [])
   | _ => (r, [-9])
   end.
 Definition rg_init (cfg : list Z) : ring := newRing.
